@@ -374,6 +374,42 @@ fn main() {
     sweep::<EisenInt<i64>>(&run, "EisenInt<i64>", &e9[..5], &[(2, 3)], true);
     sweep::<GaussInt<BigInt>>(&run, "GaussInt<BigInt>", &g9[..6], &[(2, 2)], true);
     sweep::<EisenInt<BigInt>>(&run, "EisenInt<BigInt>", &e9[..6], &[(2, 2)], true);
+    // ---- four and five rows (the size-reduction loop of plain LLL only has more than one step from
+    // ---- the fourth row on): all 0/1 matrices 4x4, and all triangular 4x4 matrices with diagonal
+    // ---- in {1,2,3} and off-diagonal entries in {-1,0,1,2}, as upper and as lower triangular
+    sweep::<i64>(&run, "i64", &[z(0), z(1)], &[(4, 4)], true);
+    {
+        let dg = [1i64, 2, 3];
+        let off = [-1i64, 0, 1, 2];
+        let total = 81 * 4096usize;
+        run.add("inputs", 2 * total as u64);
+        run.par_for(total, |idx| {
+            if run.over_budget() {
+                run.cap("wall budget reached before all inputs were explored");
+                return;
+            }
+            let (mut d, mut o) = (idx % 81, idx / 81);
+            let mut up = RMat::<Z>::zero(4, 4);
+            for i in 0..4 {
+                up.set(i, i, z(dg[d % 3]));
+                d /= 3;
+            }
+            for i in 0..4 {
+                for j in i + 1..4 {
+                    up.set(i, j, z(off[o % 4]));
+                    o /= 4;
+                }
+            }
+            run.add("nonzero_inputs", 2);
+            let code = format!("tri{idx}");
+            check_lll::<i64>(&run, "i64/upper4", &up, &code);
+            check_lll::<i64>(&run, "i64/lower4", &up.transpose(), &code);
+            if idx % 16 == 0 {
+                check_hnf::<i64>(&run, "i64/upper4", &up, &code);
+                check_lll::<num_bigint::BigInt>(&run, "BigInt/lower4", &up.transpose(), &code);
+            }
+        });
+    }
     // boundary alphabet (arbitrary precision)
     let big: Vec<Z> = vec![z(0), z(1), z(-1), pow2(31), pow2(53) - z(1), pow2(53) + z(1), pow2(64) + z(1), pow10(20), -pow10(40) - z(7), pow10(300)];
     sweep::<BigInt>(&run, "BigInt/boundary", &big, &[(1, 1), (1, 2), (2, 1)], true);
